@@ -100,6 +100,37 @@ theorem legs_even (dx dy dz sx sy sz : Int) (hsx : U sx) (hsy : U sy) (hsz : U s
     have h3 : ¬ (dz = sz ∧ U dx ∧ U dy) := fun h => hx h.2.1
     rw [ind_neg h1, ind_neg h2, ind_neg h3]
 
+/-- explicit signs of the four axes -/
+theorem sgn_facts (b u v w : Int) (hb : IsAxis b) :
+    (b = 0 ∧ sgnX b = 1 ∧ sgnY b = 1 ∧
+      (((u + v + w) % 4 = 0 ∧ sgnZ b u v w = 1) ∨ ((u + v + w) % 4 ≠ 0 ∧ sgnZ b u v w = -1))) ∨
+    (b = 1 ∧ sgnX b = -1 ∧ sgnY b = -1 ∧
+      (((u + v + w) % 4 = 0 ∧ sgnZ b u v w = 1) ∨ ((u + v + w) % 4 ≠ 0 ∧ sgnZ b u v w = -1))) ∨
+    (b = 2 ∧ sgnX b = 1 ∧ sgnY b = -1 ∧
+      (((u + v + w) % 4 = 0 ∧ sgnZ b u v w = -1) ∨ ((u + v + w) % 4 ≠ 0 ∧ sgnZ b u v w = 1))) ∨
+    (b = 3 ∧ sgnX b = -1 ∧ sgnY b = 1 ∧
+      (((u + v + w) % 4 = 0 ∧ sgnZ b u v w = -1) ∨ ((u + v + w) % 4 ≠ 0 ∧ sgnZ b u v w = 1))) := by
+  unfold sgnX sgnY sgnZ
+  by_cases hp : (u + v + w) % 4 = 0 <;> rcases hb with rfl | rfl | rfl | rfl <;> simp [hp]
+
+/-- lexicographic comparison from the comparison of the ranks -/
+theorem lex_of_le {X U Y V M ra rb : Nat} (_hY : Y < M) (hV : V < M) (ha : ra < 4) (hb : rb < 4)
+    (h : (X * M + Y) * 4 + ra ≤ (U * M + V) * 4 + rb) :
+    X < U ∨ (X = U ∧ (Y < V ∨ (Y = V ∧ ra ≤ rb))) := by
+  rcases Nat.lt_trichotomy X U with h1 | h1 | h1
+  · exact Or.inl h1
+  · subst h1
+    right
+    refine ⟨rfl, ?_⟩
+    generalize X * M = P at h
+    omega
+  · exfalso
+    have : (U + 1) * M ≤ X * M := Nat.mul_le_mul_right M h1
+    rw [Nat.succ_mul] at this
+    generalize X * M = Q at *
+    generalize U * M = P at *
+    omega
+
 /-! ### `qubit_axis` and `get_deformation` -/
 
 /-- `qubit_axis` in closed form on a location whose coordinates have the parities of a qubit -/
